@@ -453,19 +453,55 @@ let event_s = function
   | EvFree p -> "F" ^ ido p
 
 let describe_mode = ref false
-let out_s (o : out) (op : op) : string =
+(* [img]: Some n = print the bytes as the image of an n-byte buffer *)
+let out_s (o : out) (img : int option) : string =
   match o with
   | OutHandle ok -> if ok then "ok" else "NULL"
   | OutBool b -> if b then "1" else "0"
   | OutUnit -> "-"
-  | OutNum n -> (match op with OSerSize _ when !describe_mode -> "-" | _ -> string_of_n n)
+  | OutNum n -> if !describe_mode then "-" else string_of_n n
   | OutBytes (ret, bytes) ->
-      (match op with
-       | OSerialize (_, n) -> Printf.sprintf "%s:%s" (string_of_n ret) (image bytes (int_of_n n))
-       | _ -> Printf.sprintf "%s:%s" (string_of_n ret) (hex_of_bytes bytes))
+      (match img with
+       | Some n -> Printf.sprintf "%s:%s" (string_of_n ret) (image bytes n)
+       | None -> Printf.sprintf "%s:%s" (string_of_n ret) (hex_of_bytes bytes))
   | OutLoadErr (c, p) -> Printf.sprintf "err:%s:%s" (lerr_s c) (string_of_n p)
   | OutLoadOk rd -> "ok:" ^ string_of_n rd
   | OutSkip -> "skip"
+
+let skind_of = function
+  | "uint" -> KUint | "negint" -> KNegint | "bytes" -> KBytes | "string" -> KString
+  | "array" -> KArray | "map" -> KMap | "tag" -> KTag | "fc" -> KFloatCtrl
+  | s -> failwith ("skind " ^ s)
+
+(* the op words of all three layers (HHist.v, HHist2.v, HHist3.v) *)
+let parse_op3 (ws : string list) : op3 =
+  match ws with
+  | ["nds"; t] -> O3NewDefString (t = "1")
+  | ["seth"; h; hx] -> O3SetHandleNew (nat_of_string h, bytes_of_hex hx)
+  | ["shorten"; h; n] -> O3SetHandleShorten (nat_of_string h, n_of_string n)
+  | ["ni"; w] -> O3NewInt (width_of w)
+  | ["su"; w; h; v] -> O3SetUint (width_of w, nat_of_string h, n_of_string v)
+  | ["mku"; h] -> O3Mark (false, nat_of_string h)
+  | ["mkn"; h] -> O3Mark (true, nat_of_string h)
+  | ["nf"; w] -> O3NewFloat (fwidth_of w)
+  | ["sf"; w; h; b] -> O3SetFloat (fwidth_of w, nat_of_string h, n_of_string ("0x" ^ b))
+  | ["nc"] -> O3NewCtrl
+  | ["sc"; h; v] -> O3SetCtrl (nat_of_string h, n_of_string v)
+  | ["sb"; h; b] -> O3SetBool (nat_of_string h, b = "1")
+  | ["bb"; b] -> O3BuildBool (b = "1")
+  | ["nn"] -> O3NewNull
+  | ["nu"] -> O3NewUndef
+  | ["mv"; h] -> O3Move (nat_of_string h)
+  | ["pushmv"; a; x] -> O3PushMove (nat_of_string a, nat_of_string x)
+  | ["maddmv"; m; k; v] -> O3MapAddMove (nat_of_string m, nat_of_string k, nat_of_string v)
+  | ["tsetmv"; t; x] -> O3TagSetMove (nat_of_string t, nat_of_string x)
+  | ["btmv"; v; x] -> O3BuildTagMove (n_of_string v, nat_of_string x)
+  | ["idec"; h] -> O3IntermediateDecref (nat_of_string h)
+  | ["bs0"; hx] -> O3BuildString0 (bytes_of_hex hx)
+  | ["sert"; k; h; n] -> O3SerializeTyped (skind_of k, nat_of_string h, n_of_string n)
+  | ["preds"; h] -> O3Preds (nat_of_string h)
+  | ["vals"; h] -> O3Vals (nat_of_string h)
+  | _ -> O3Old (parse_op ws)
 
 (* one history under one refusal schedule; returns (text, number of requests made) *)
 let run_history (l : n) (cap : n) (mode : string) (k : n) (line : string) : string * n =
@@ -474,30 +510,24 @@ let run_history (l : n) (cap : n) (mode : string) (k : n) (line : string) : stri
     (match mode with "only" -> idx = k | "from" -> N.leb k idx | _ -> false) in
   let steps = List.filter (fun x -> String.trim x <> "") (String.split_on_char ';' line) in
   let b = Buffer.create 256 in
-  let st = ref ([] : cstate) and w = ref world0 and faulted = ref false in
+  let st = ref s3_0 and w = ref world0 and faulted = ref false in
   List.iter (fun stp ->
     if not !faulted then begin
       let parts = String.split_on_char '?' stp in
       let opws = split_ws (List.hd parts) in
       let probes = match parts with [_; p] -> List.map int_of_string (split_ws p) | _ -> [] in
-      let extra = (match opws with
-        | ["nds"; t] -> Some (new_definite_string_op refuse !st (t = "1"))
-        | ["seth"; h; hx] -> Some (set_handle_new refuse !st (nat_of_string h) (bytes_of_hex hx))
-        | ["shorten"; h; n] -> Some (set_handle_shorten !st (nat_of_string h) (n_of_string n))
-        | _ -> None) in
       let is_val = (match opws with "val" :: _ -> true | _ -> false) in
-      let opws = (match extra with Some _ -> ["bc"; "0"] | None -> opws) in
       let opws = if is_val then ["ssize"; List.nth opws 1] else opws in
-      let o = parse_op opws in
+      let o = parse_op3 opws in
       describe_mode := (match opws with "desc" :: _ -> true | _ -> false);
-      (match (match extra with Some m -> m !w | None -> step refuse l !st o !w) with
+      (match step3 refuse l !st o !w with
        | Fault kd -> faulted := true; Buffer.add_string b ("FAULT:" ^ fkind_s kd ^ ";")
        | Ret ((s', ot), w') ->
            st := s'; w := w';
            if is_val then begin
              (match o with
-              | OSerSize h ->
-                  (match List.nth_opt (handles s') (int_of_nat h) with
+              | O3Old (OSerSize h) ->
+                  (match List.nth_opt (handles s'.base) (int_of_nat h) with
                    | Some (Some a) ->
                        (match (!w).heap a with
                         | Some (CItem (_, nd)) ->
@@ -517,12 +547,18 @@ let run_history (l : n) (cap : n) (mode : string) (k : n) (line : string) : stri
                    | _ -> Buffer.add_string b "skip")
               | _ -> ())
            end else
-           Buffer.add_string b (out_s ot o);
+           Buffer.add_string b
+             (match ot with
+              | OutVals vs -> "v:" ^ String.concat "," (List.map string_of_n vs)
+              | Out oo ->
+                  out_s oo (match o with
+                            | O3Old (OSerialize (_, n)) | O3SerializeTyped (_, _, n) -> Some (int_of_n n)
+                            | _ -> None));
            if probes <> [] then begin
              Buffer.add_string b "[";
              List.iteri (fun i h ->
                if i > 0 then Buffer.add_string b " ";
-               (match List.nth_opt (handles s') h with
+               (match List.nth_opt (handles s'.base) h with
                 | Some (Some a) ->
                     (match probe1 w' a with
                      | Some (rc, None) -> Buffer.add_string b (Printf.sprintf "%d:%s" h (string_of_n rc))
